@@ -343,3 +343,47 @@ func reachableStatic(p *Prog, root *ssa.Function) []*ssa.Function {
 	walk(root)
 	return out
 }
+
+// deferInvokes: the deferred call d invokes the interface method `name` on a value satisfying isV — directly
+// (`defer v.Close()`), or as the unconditional action of a function literal of the same function that
+// captured the value (`defer func() { v.Close() }()`).
+func deferInvokes(d *ssa.Defer, name string, isV func(ssa.Value) bool) bool {
+	dc := d.Common()
+	if dc.IsInvoke() {
+		return dc.Method.Name() == name && isV(dc.Value)
+	}
+	f := dc.StaticCallee()
+	mc, _ := dc.Value.(*ssa.MakeClosure)
+	if f == nil || mc == nil || f.Parent() != d.Parent() {
+		return false
+	}
+	for _, c := range Calls(f) {
+		cc, ok := IsInvoke(c, name)
+		if !ok || !uncond(f, c) {
+			continue
+		}
+		recv := stripConv(cc.Value)
+		var fv *ssa.FreeVar
+		if u, ok := recv.(*ssa.UnOp); ok && u.Op == token.MUL {
+			fv, _ = u.X.(*ssa.FreeVar)
+		} else {
+			fv, _ = recv.(*ssa.FreeVar)
+		}
+		if fv == nil {
+			continue
+		}
+		for i, x := range f.FreeVars {
+			if x != fv || i >= len(mc.Bindings) {
+				continue
+			}
+			b := mc.Bindings[i]
+			if cv := cellContent(b); cv != nil {
+				b = cv
+			}
+			if isV(b) || isV(stripConv(b)) {
+				return true
+			}
+		}
+	}
+	return false
+}
